@@ -1397,13 +1397,17 @@ func (e *Exec) rangeIter(fr *frame, in *ssa.Range, x Value) Value {
 		}
 		site := e.pos(fr, in)
 		e.noteMapRange(site, n)
-		if e.permuteMaps && n >= 2 && n <= 4 && e.prog.inModule(pkgPathOf(fr.fn)) {
+		if e.permuteMaps && n >= 2 && n <= 4 && e.prog.inModule(pkgPathOf(fr.fn)) && !(e.permuteSingle && e.permuteUsed) {
 			nperm := 1
 			for i := 2; i <= n; i++ {
 				nperm *= i
 			}
-			k := e.pick("maporder@"+site, nperm)
+			e.mapOrderSeq++
+			k := e.pick(fmt.Sprintf("maporder@%s#%d", site, e.mapOrderSeq), nperm)
 			it.order = nthPermutation(n, k)
+			if k != 0 {
+				e.permuteUsed = true
+			}
 			e.mapOrders = append(e.mapOrders, fmt.Sprintf("%s:%v", site, it.order))
 		}
 		return it
